@@ -19,11 +19,14 @@ Four independent pieces:
       receive-queue length, registers and arrays of the active application;
   it also produces the input lines of the Lean driver `nqexec` and the
   observation line the driver must print for each (`Runner.lines`).
+  Nodes may get a small register limit (`max_regs`); the model has none, see
+  `Runner._tie_prog` for how a refusal by it reaches the driver.
 * `render_prog`: netqasm instruction objects (deserialised from the very bytes
   sent to the node) -> the instruction syntax of the Lean driver.
 * `Reference` / `RefApp`: a reference interpreter for NetQASM at token level in
   plain Python (addresses name qubits of ONE ideal register, a NumPy state
-  vector); knows nothing of the Lean model nor of the code under test.
+  vector); knows nothing of the Lean model nor of the code under test; counts
+  the simulation registers the node needs (merge classes of the live qubits).
 * text-subroutine helpers (`sub_msg`, `epr_create_text`, `epr_recv_text`).
 """
 import numpy as np
@@ -138,6 +141,16 @@ def render_instr(i):
     return "other"
 
 
+def _in_loop(prog, at):
+    """is instruction `at` inside the span of a backward jump (may have been executed more than once)?"""
+    for j, i in enumerate(prog):
+        if i.mnemonic in ("jmp", "bez", "bnz", "beq", "bne", "blt", "bge"):
+            t = i.line.value
+            if t <= j and t <= at <= j:
+                return True
+    return False
+
+
 def decode_sub(msg):
     """the Subroutine object QNodeOS will see: deserialised from the message's own bytes"""
     from netqasm.lang.parsing import deserialize
@@ -219,8 +232,14 @@ class Runner:
     record dict {node, kind, replies, ops, outs, sends, infos, state, quiescent, errors}; `lines[node]` collects
     (driver input line, expected driver output line, case description) in order."""
 
-    def __init__(self, names, cap, rng, caps=None):
-        self.nq = S.NqNet(list(names), max_qubits=cap, rng=rng)
+    def __init__(self, names, cap, rng, caps=None, max_regs=None):
+        """max_regs: register limit of every node (None = simnet's default, far above any capacity used here).
+        The Lean model's node has a qubit capacity only; see `_tie_line` for what the driver is told when a
+        request is refused by the REGISTER limit."""
+        if max_regs is None:
+            self.nq = S.NqNet(list(names), max_qubits=cap, rng=rng)
+        else:
+            self.nq = S.NqNet(list(names), max_qubits=cap, max_regs=max_regs, rng=rng)
         # a fresh network stands for freshly started processes: netqasm's process-wide registry starts empty
         from netqasm.sdk.shared_memory import SharedMemoryManager
         SharedMemoryManager.reset_memories()
@@ -240,6 +259,10 @@ class Runner:
         self.lines = {n: [] for n in names}
         self.rec = {n: self._blank() for n in names}
         self.pylog_seen = 0
+        self.reg_hits = {}                         # node -> refusals "Maximum number of registers reached" during this message
+        self.offmodel = {n: False for n in names}  # the node left what the Lean model describes (no register limit there)
+        self.untied = {n: 0 for n in names}        # messages of the node not sent to the driver for that reason
+        self.substituted = 0                       # register-refused qallocs presented to the driver as a failing instruction
         for n in names:
             self.lines[n].append(("reset %d %s" % (nq.nodes[n].maxQubits,
                                                    ",".join(str(self.node_id[m]) for m in names if m != n) or "-"),
@@ -250,7 +273,7 @@ class Runner:
 
     @staticmethod
     def _blank():
-        return {"ops": [], "outs": [], "sends": [], "infos": []}
+        return {"ops": [], "outs": [], "sends": [], "infos": [], "refused": []}
 
     def _token(self, node, obj, create=False):
         d = self.tok[node]
@@ -293,6 +316,15 @@ class Runner:
             return d
         EX.call_method = call_method
         for n in self.names:
+            nd = self.nq.nodes[n]
+            orig_reg = nd.remote_new_register
+
+            def new_register(*a, _o=orig_reg, _nd=nd, _n=n, **k):
+                if _nd.numRegs >= _nd.maxRegs:
+                    me.reg_hits[_n] = me.reg_hits.get(_n, 0) + 1
+                return _o(*a, **k)
+            nd.remote_new_register = new_register        # instance attribute: `self.remote_new_register(...)` finds it
+        for n in self.names:
             ex = self.nq.facs[n].backend._executor
             orig_store = ex._store_ent_info
 
@@ -305,6 +337,10 @@ class Runner:
     def _pre(self, obj, name, a, k):
         node, loc = self._where(obj)
         pre = {"node": node, "loc": loc}
+        if name == "new_qubit" and node is not None:
+            nd = self.nq.nodes[node]
+            ignore = bool(a[0]) if a else bool(k.get("ignore_max_qubits", False))
+            pre["full"] = (len(nd.virtQubits) >= nd.maxQubits and not ignore, nd.numRegs >= nd.maxRegs, ignore)
         if name == "netqasm_send_epr_half" and node is not None and a and a[0] is not None:
             for v in self.nq.nodes[node].virtQubits:
                 if v.num == a[0]:
@@ -320,6 +356,9 @@ class Runner:
             if ok:
                 _n, q = self._where(r)
                 rec["ops"].append(("new", self._token(node, q, create=True)))
+            else:
+                qfull, rfull, ignore = pre.get("full", (False, False, False))
+                rec["refused"].append(("qubits" if qfull else "regs" if rfull else "other", ignore))
         elif name in G1_METHOD:
             if ok:
                 rec["ops"].append(("g1", G1_METHOD[name], self._token(node, loc)))
@@ -352,6 +391,9 @@ class Runner:
                 self._token(recv, v, create=True)
         line = "arrive %d %d" % (sock, self.node_id[sender])
         want = "done | - | - | " + self.state(recv)
+        if self.offmodel[recv]:
+            self.untied[recv] += 1
+            return
         self.lines[recv].append((line, want, {"node": recv, "kind": "arrive", "from": sender}))
 
     # -- observation --------------------------------------------------------
@@ -434,6 +476,7 @@ class Runner:
             raise ValueError(kind)
         for n in self.names:
             self.rec[n] = self._blank()
+        self.reg_hits = {}
         if kind == "init":
             self.app[node] = app
         p, t = self.host[node]
@@ -455,6 +498,7 @@ class Runner:
         halt = "error" if ("ErrorMessage" in names or "MsgDoneMessage" not in names) else "done"
         out = {"node": node, "kind": kind, "app": app, "replies": replies, "ops": list(rec["ops"]),
                "outs": list(rec["outs"]), "sends": list(rec["sends"]), "infos": list(rec["infos"]), "state": st,
+               "refused": list(rec["refused"]), "reg_hits": dict(self.reg_hits),
                "quiescent": quiescent, "errors": errors, "halt": halt, "prog": prog, "body": body, "note": note}
         want = "%s | %s | %s | %s" % (halt, _or_dash([show_reply(r) for r in replies]),
                                       _or_dash([show_op(o) for o in rec["ops"]]), st)
@@ -467,11 +511,41 @@ class Runner:
             line = "stop %d | %s" % (app, bits(rec["outs"]))
         else:
             infos = ";".join(",".join(str(x) for x in i) for i in rec["infos"]) or "-"
-            line = "sub %d | %s | %s | %s | %s" % (app, bits(rec["outs"]), bits(rec["sends"]), infos, render_prog(prog))
+            shown = render_prog(prog) if self.offmodel[node] else self._tie_prog(node, out)
+            line = None if shown is None else "sub %d | %s | %s | %s | %s" % (app, bits(rec["outs"]), bits(rec["sends"]),
+                                                                              infos, shown)
             desc["body"] = body
+        if self.reg_hits and (kind != "sub" or line is None):
+            # a register-limit refusal outside a plain qalloc (pair creation, merge of two remote registers, ...):
+            # the model cannot be told; every node that refused and the node serving the message leave the tie
+            for n in set(self.reg_hits) | {node}:
+                self.offmodel[n] = True
         out["line"], out["want"] = line, want
-        self.lines[node].append((line, want, desc))
+        if self.offmodel[node]:
+            self.untied[node] += 1
+        else:
+            self.lines[node].append((line, want, desc))
         return out
+
+    def _tie_prog(self, node, rec):
+        """The program text the Lean driver gets for this subroutine.  The model's node (NqExec.Node) has a qubit
+        capacity and no register limit, and the driver protocol has no input for "new_qubit was refused".  When the
+        ONLY register-limit refusal of this message is the plain `new_qubit` of a `qalloc` at line L that aborted
+        the subroutine, and L is not inside a loop (it was executed once), the refusal is presented to the model as
+        what was observed: instruction L raises and changes nothing -- rendered `ret_arr 9999` (an array that is
+        never created; NqExec.instrStep `.retArr`: fail, state untouched).  The tie then demands of the real code
+        exactly the state of "qalloc failed without effect" on this and every later message (roll-back).
+        Any other register-limit refusal -> None (the node leaves the tie; oracle only from there on)."""
+        prog = rec["prog"]
+        if not self.reg_hits:
+            return render_prog(prog)
+        at = self.failing_line(rec)
+        plain = [r for r in rec["refused"] if r == ("regs", False)]
+        if (self.reg_hits == {node: 1} and len(plain) == 1 and len(rec["refused"]) == 1 and rec["halt"] == "error"
+                and at is not None and at < len(prog) and prog[at].mnemonic == "qalloc" and not _in_loop(prog, at)):
+            self.substituted += 1
+            return " ; ".join("ret_arr 9999" if j == at else render_instr(i) for j, i in enumerate(prog))
+        return None
 
     def failing_line(self, rec):
         """program counter netqasm reports for the aborted subroutine (from its error log), or None"""
@@ -502,17 +576,29 @@ class Reference:
         self.tokens = []
         self.vec = np.array([1.0 + 0j])
         self.next = 0
+        self.group = {}       # token -> simulation register it lives in (named by its first token)
 
     def alloc(self):
         t = self.next
         self.next += 1
         self.tokens.append(t)
         self.vec = np.kron(self.vec, np.array([1.0 + 0j, 0.0]))
+        self.group[t] = t     # a new qubit comes in a register of its own (virtual.py remote_new_qubit)
         return t
+
+    def registers(self):
+        """how many simulation registers the live qubits occupy: one per new qubit, two are merged into one by
+        a two-qubit gate across them and never split again, a register disappears with its last qubit"""
+        return len(set(self.group.values()))
 
     def gate(self, g, *ts):
         idx = tuple(self.tokens.index(t) for t in ts)
         self.vec = stabutil.apply_gate(g, idx, len(self.tokens), self.vec)
+        if len(ts) == 2 and self.group[ts[0]] != self.group[ts[1]]:
+            a, b = self.group[ts[0]], self.group[ts[1]]
+            for t in self.group:
+                if self.group[t] == b:
+                    self.group[t] = a
 
     def measure(self, t, o, remove=False):
         n = len(self.tokens)
@@ -526,6 +612,7 @@ class Reference:
         if remove:
             self.tokens.pop(j)
             self.vec = part.reshape(-1)
+            self.group.pop(t, None)
         else:
             new = np.zeros_like(ten)
             new[int(o)] = part
@@ -538,10 +625,11 @@ REF_G1 = {"x": "X", "y": "Y", "z": "Z", "h": "H", "k": "K", "s": "S"}
 
 class RefApp:
     """NetQASM semantics for one application on one node, addresses name tokens directly.
-    `free_cap()` -> how many more qubits the node can hold (allocation is refused at 0)."""
+    `free_cap()` -> how many more qubits the node can hold (allocation is refused at 0);
+    `free_regs()` (optional) -> how many more simulation registers the node can open (a new qubit needs one)."""
 
-    def __init__(self, ref, maxq, free_cap):
-        self.ref, self.maxq, self.free_cap = ref, maxq, free_cap
+    def __init__(self, ref, maxq, free_cap, free_regs=None):
+        self.ref, self.maxq, self.free_cap, self.free_regs = ref, maxq, free_cap, free_regs
         self.regs, self.arrays, self.qmap = {}, {}, {}
 
     def _r(self, r):
@@ -590,6 +678,8 @@ class RefApp:
                         raise RefError("address %d already allocated" % a)
                     if self.free_cap() <= 0:
                         raise RefError("node full")
+                    if self.free_regs is not None and self.free_regs() <= 0:
+                        raise RefError("register limit reached")
                     t = ref.alloc()
                     self.qmap[a] = t
                     ops.append(("new", t))
